@@ -31,8 +31,11 @@ MANIFEST = dict(
         technique="TLA+ spec + TLC exhaustive check; TLC-generated behaviours replayed into the C and C++ code; TLC trace validation of recorded runs",
         design="5/C15")
 CFG = {
-    "quick":    dict(mc="MC_RefCount.cfg",   gen="Gen_RefCount.cfg",   nhist=160, steps=50),
-    "thorough": dict(mc="MC_RefCount_t.cfg", gen="Gen_RefCount_t.cfg", nhist=1600, steps=70),
+    "quick":    dict(mc=["MC_RefCount.cfg"], gen=["Gen_RefCount.cfg"], nhist=160, steps=50),
+    # thorough: 3 handles for the structurally different kinds, the four kinds that behave like rawdata at 2 handles;
+    # the unconstrained reply-context model (retries x cleared send callback x everything) as a run of its own
+    "thorough": dict(mc=["MC_RefCount_t.cfg", "MC_RefCount_r.cfg"], gen=["Gen_RefCount_t.cfg", "Gen_RefCount_t2.cfg"],
+                     nhist=1600, steps=70),
 }
 KINDS = ["buf", "hmeta", "reply", "rawdata", "stream", "outlocal", "outremote", "iterfile", "geninfo", "metabuf", "cxxref", "bare"]
 T_NH, T_NOBJ, T_MAX, T_EXTRA = 4, 8, 1000, 3      # constants of Trace_RefCount.cfg
@@ -102,14 +105,18 @@ class Ideal:
         self.x = [0] * (T_NOBJ + 1)
         self.d = [0] * (T_NOBJ + 1)
         self.cnt = [0] * (T_NOBJ + 1)
+        self.snd = [True] * (T_NOBJ + 1)
         self.made = 0
 
     def can(self, o):
         return self.k in SHARABLE and o and self.cnt[o] not in (0, T_MAX)
 
-    def lower(self, o):
+    def lower(self, o, detached=False):
         if o:
-            self.cnt[o] = 0 if (self.cnt[o] <= 1 or self.k not in SHARABLE) else self.cnt[o] - 1
+            last = self.cnt[o] <= 1 or self.k not in SHARABLE
+            self.cnt[o] = 0 if last else self.cnt[o] - 1
+            if not last and not detached and self.k == "reply":
+                self.snd[o] = False
 
     def hrefs(self, o):
         return self.h.count(o) + (self.c.count(o) if self.c else 0)
@@ -135,9 +142,11 @@ def gen_histories(ck, n, steps):
         dv = DROP_VIAS.get(k, ["conv", "value", "fini", "raw", "cxx"])
         for _ in range(steps):
             ops = ["create"] * 3 + ["copy"] * 8 + ["drop"] * 4 + ["move"] * 2 + ["detach", "adopt", "adopt", "rawref", "rawunref",
-                   "rawunref", "arrcopy", "arrdrop", "arrdrop", "clone", "unshare", "unshare", "poke", "unpoke", "unpoke", "defer", "undefer", "undefer"]
+                   "rawunref", "arrcopy", "arrdrop", "arrdrop", "clone", "unshare", "unshare", "poke", "unpoke", "unpoke", "defer", "defer", "undefer", "undefer", "undefer", "reply"]
             op = rng.choice(ops)
             alive = [o for o in range(1, m.made + 1) if m.cnt[o] > 0]
+            if k == "reply" and op in ("poke", "unpoke", "unshare", "clone") and rng.random() < 0.8:
+                op = rng.choice(["defer", "undefer", "undefer", "reply"])
             if op == "create":
                 hs = [i for i in range(T_NH) if not m.h[i]]
                 if not hs or m.made >= T_NOBJ:
@@ -155,6 +164,8 @@ def gen_histories(ck, n, steps):
                 t, o = m.h[g], m.h[i]
                 beh.append({"a": "copy", "arg": {"h": i + 1, "g": g + 1, "via": via}})
                 if t == o:
+                    if o and k == "reply" and via in ("conv", "value", "valueptr") and m.can(o):
+                        m.snd[o] = False
                     continue
                 if t and not m.can(t):
                     if via in ("cxx", "cxxctor"):
@@ -282,9 +293,15 @@ def gen_histories(ck, n, steps):
                 if k != "reply" or not os_:
                     continue
                 o = rng.choice(os_)
-                beh.append({"a": "undefer", "arg": {"o": o}})
-                m.d[o] -= 1
-                m.lower(o)
+                msg, acc = rng.choice([0, 1, 1]), rng.choice([0, 1])
+                beh.append({"a": "undefer", "arg": {"o": o, "msg": msg, "accept": acc}})
+                if not (msg == 1 and acc == 0 and m.snd[o]):
+                    m.d[o] -= 1
+                    m.lower(o, detached=True)
+            elif op == "reply":
+                if k != "reply" or not alive:
+                    continue
+                beh.append({"a": "reply", "arg": {"o": rng.choice(alive), "msg": rng.choice([0, 1]), "accept": rng.choice([0, 1])}})
         behs.append(beh)
     return behs
 
@@ -353,8 +370,13 @@ def run(tier):
     pool = ThreadPoolExecutor(max_workers=4)
 
     # 1. design (counter per object) implements the meaning (who refers to what) for all histories in the bound
-    mc = pool.submit(vlib.tlc, "MC_RefCount", cfg["mc"], coverage=(tier == "thorough"),
-                   workers=vlib.NCPU if tier == "thorough" else max(4, vlib.NCPU // 2))
+    def mc_job():
+        out = []
+        for c in cfg["mc"]:
+            out.append((c, vlib.tlc("MC_RefCount", c, coverage=(tier == "thorough"), tag="MC_RefCount_" + c[:-4],
+                                    workers=vlib.NCPU if tier == "thorough" else max(4, vlib.NCPU // 2), timeout=2400)))
+        return out
+    mc = pool.submit(mc_job)
 
     # 3. binding B: seeded histories recorded from the real code, validated by TLC
     hist = gen_histories(ck, cfg["nhist"], cfg["steps"])
@@ -368,12 +390,15 @@ def run(tier):
     tjob = pool.submit(trace_job)
 
     # 2. binding A: every transition of the model replayed into the real code
-    gen = vlib.tlc("Gen_RefCount", cfg["gen"], workers=4)
-    if gen.error or gen.violation:
-        raise vlib.MachineryError("behaviour export failed: %s %s" % (gen.error, gen.violation))
-    behs = vlib.parse_behaviours(gen.out)
-    gen.out = ""
-    vlib.log("C15 %d behaviours exported in %.1fs" % (len(behs), gen.wall))
+    behs = []
+    for g in cfg["gen"]:
+        gen = vlib.tlc("Gen_RefCount", g, workers=4, tag="Gen_RefCount_" + g[:-4])
+        if gen.error or gen.violation:
+            raise vlib.MachineryError("behaviour export failed (%s): %s %s" % (g, gen.error, gen.violation))
+        part = vlib.parse_behaviours(gen.out)
+        gen.out = ""
+        vlib.log("C15 %s: %d behaviours exported in %.1fs" % (g, len(part), gen.wall))
+        behs += part
     recs = vseam.run_parallel(exe, behs, nproc=6)
     by = vlib.group_records(recs)
     mms = vseam.recheck_transient(exe, behs, vlib.compare(behs, recs, match), match)
@@ -406,9 +431,9 @@ def run(tier):
     ck.cov["traces_validated_against_impl"] = acc
     vlib.log("C15 traces: %d histories, %d accepted (t=%.0fs)" % (len(hist), acc, time.time() - ck.t0))
 
-    res = mc.result()
-    ck.add_tlc(res, "exhaustive " + cfg["mc"])
-    vlib.log("C15 model checked: %d states, %d transitions, %.1fs" % (res.distinct, res.generated, res.wall))
+    for c, res in mc.result():
+        ck.add_tlc(res, "exhaustive " + c)
+        vlib.log("C15 model checked (%s): %d states, %d transitions, %.1fs" % (c, res.distinct, res.generated, res.wall))
     pool.shutdown()
     ck.cov["distinct_nontrivial"] = len(nt)
     ck.cov["exhaustive"] = True
